@@ -1,15 +1,26 @@
 (* C10 -- Equivalent spellings (case, escapes, quoting) give the same model.
    Property theorems only; proofs live in CssV.RespellFacts / CssV.RespellUrl.
    Models: the shared tokenizer model (unicodesub, normalize, finish_token over the regexes and tables
-   regenerated from /repo), the C03 builder's regenerated quoting helpers (Gen/Quote.v), and the small
+   regenerated from /repo), the string-value helpers transcribed in CssV.Respell, and the small
    call-site functions of CssV.Respell (priority_of, urivalue).
 
-   F (full statement, kept visible; NOT proved -- it needs a model of every parser layer):
+   F (full statement, kept visible; NOT proved as one theorem -- it needs a model of every parser layer):
      respell_same_model : forall sheet lay', expected_model sheet = model_of (parse (text_of (render sheet lay')))
-   P (proved here): the value-level facts below; that each of the call sites (property names, priorities,
-   pseudo names, units, function names, at-rule keywords, url(, margin boxes, page pseudo) actually calls
-   normalize is validated position by position by the end-to-end stream of harness/props/c10.py.       *)
-From CssV Require Import Base Regex Gen.Productions Gen.TokTables Tokenizer Quote Gen.Quote Respell RespellFacts RespellUrl.
+   P (proved here), in three parts:
+     (a) the value-level theorems below: every function the code applies to a name maps all spellings to one value;
+     (b) all_sites_normalised: in the source regenerated on every run, EVERY place where a name-like token value
+         is compared, looked up or stored (the table Gen/RespellSites.v built by the fail-closed walker
+         translate/respellsites.py over 18 modules) goes through normalize -- or through normalize after unicodesub
+         where the tokenizer keeps the literal text -- up to the 29 reviewed exemptions listed in RespellSites.v
+         (literal spellings kept on purpose, case-sensitive namespace prefixes, IE-only syntax);
+     (c) the token-level facts of C08/C09 (hex escapes are resolved in the nine listed token types) and the statement
+         skeleton of C02.
+   Remaining gap, named precisely: (a)+(b) say "each comparison is made on a spelling-independent value"; that the
+   control flow of the handlers between these sites does not depend on the spelling in any other way (e.g. through
+   len(), slicing at a non-constant offset, or a token value handed to a function outside the 18 modules) is not
+   proved; it is what the end-to-end stream of harness/props/c10.py tests position by position.          *)
+From CssV Require Import Base Regex Gen.Productions Gen.TokTables Tokenizer Respell RespellFacts RespellUrl.
+From CssV Require Gen.RespellSites RespellSites.
 
 (* any ASCII letter in the other case, any non-hex character written as a literal escape (or the
    reverse): normalize gives the same name *)
@@ -134,3 +145,23 @@ Theorem letter_spelling_normalizes : forall lo x f,
   In f followers -> normalize_u (x ++ [f]) = lo :: normalize [f].
 Proof. exact letter_spelling_normalizes_lemma. Qed.
 Print Assumptions letter_spelling_normalizes.
+
+(* the checked site table: every comparison / lookup / store of a name-like token value in the 18 walked
+   modules of /repo's current tree is normalised, or is one of the reviewed exemptions *)
+Theorem all_sites_normalised : forallb RespellSites.site_ok Gen.RespellSites.sites = true.
+Proof. vm_compute. reflexivity. Qed.
+Print Assumptions all_sites_normalised.
+
+(* no stale exemption: each one matches a site that is not normalised *)
+Theorem exemptions_all_used : forallb RespellSites.exemption_used RespellSites.exemptions = true.
+Proof. vm_compute. reflexivity. Qed.
+Print Assumptions exemptions_all_used.
+
+(* non-vacuity: the table is not empty, and the checker rejects the shapes of the repaired defects *)
+Example sites_nonvacuous :
+  (40 <= RespellSites.count_kind Gen.RespellSites.SCompare)%nat /\ (20 <= RespellSites.count_kind Gen.RespellSites.SStore)%nat /\
+  RespellSites.site_ok (Gen.RespellSites.mkSite "css/value.py" "ColorValue._setCssText Prod('FUNCTION').match"
+     "v.lower() in ('rgb(', 'hsl(')" Gen.RespellSites.SCompare Gen.RespellSites.NLower false "FUNCTION") = false /\
+  RespellSites.site_ok (Gen.RespellSites.mkSite "css/cssmediarule.py" "CSSMediaRule._setCssText.atrule"
+     "atval in factories" Gen.RespellSites.SCompare Gen.RespellSites.NNormalize true "") = false.
+Proof. vm_compute. repeat split; auto 50 using le_n, le_S. Qed.
